@@ -1062,6 +1062,22 @@ pub fn splice(
             let Some(c) = scan.closures.get(*k) else {
                 return Err(Lost(format!("anchor lost: @closure {k} but the function has {} closures", scan.closures.len())));
             };
+            // the header must name the parameters the closure in the source names: an ordinal that now points at another
+            // closure (one was inserted or removed before it) is a lost anchor, not a contract for that other closure
+            let src_params: Vec<String> = c.inputs.iter().map(|p| {
+                let p = match p { syn::Pat::Type(t) => &*t.pat, other => other };
+                match p { syn::Pat::Ident(i) => i.ident.to_string(), syn::Pat::Wild(_) => "_".into(), other => text[range(other.span())].split_whitespace().collect::<String>() }
+            }).collect();
+            let hdr = t.trim();
+            let hdr_params: Vec<String> = match (hdr.find('|'), hdr.find('|').and_then(|a| hdr[a + 1..].find('|').map(|b| (a, a + 1 + b)))) {
+                (Some(_), Some((a, b))) => hdr[a + 1..b].split(',').map(|x| x.split(':').next().unwrap_or("").trim().trim_start_matches("mut ").to_string()).filter(|x| !x.is_empty()).collect(),
+                _ => vec![],
+            };
+            let same = src_params.len() == hdr_params.len()
+                && src_params.iter().zip(&hdr_params).all(|(a, b)| a == b || a == "_" || a.starts_with("_verif_unused"));
+            if !same {
+                return Err(Lost(format!("anchor lost: @closure {k} is written for parameters ({}) but the {k}-th closure of the function takes ({})", hdr_params.join(", "), src_params.join(", "))));
+            }
             let hs = range(c.or1_token.span()).start;
             let he = match &c.output {
                 syn::ReturnType::Type(_, ty) => range(ty.span()).end,
